@@ -263,6 +263,7 @@ theorem coh_step (s : State) (m : Move) (h : Coherent s) : Coherent (step Facts.
   | listerSync pods apps =>
     simp only [step]
     cases pods <;> cases apps <;> exact coherent_of_eq h rfl rfl rfl rfl
+  | fipSync => exact coherent_of_eq h rfl rfl rfl rfl
   | dropEvent i =>
     simp only [step]; split
     · exact coherent_of_eq h rfl rfl rfl rfl
